@@ -218,6 +218,11 @@ def _failing(g: Gen, rng: Any, sid: str, hz: dict[str, bool], txn_owner: list[st
             f"DELETE FROM {t1} WHERE A IN (SELECT A FROM {t9})",
         ]
         forms.append(f"DESCRIBE TABLE {t9}")
+        # MERGE is carried out in several engine calls: a failure of the first one must leave nothing behind either
+        forms += [
+            f"MERGE INTO {t1} USING {t9} src ON {ref[2]}.A = src.A WHEN NOT MATCHED THEN INSERT (A, B) VALUES (src.A, src.B)",
+            f"MERGE INTO {t9} USING (SELECT 1 AS A, 'm' AS B) src ON T9.A = src.A WHEN NOT MATCHED THEN INSERT (A, B) VALUES (src.A, src.B)",
+        ]
         g.exec(sid, {"t": "raw_fail", "sql": rng.choice(forms), "errs": E_TABLE_MISSING, "why": "unknown table", "needs_ctx": ref}, cur=cur)
     elif kind == "unknown_schema":
         r = rng.random()
